@@ -135,6 +135,8 @@ BitSequence *BitSequence::load(std::istream &fp) {
     return BitSequenceSDArray::load(fp);
   case DARRAY_HDR:
     return BitSequenceDArray::load(fp);
+  case BRW32_375:
+    return BitSequence375::load(fp);
   }
   return NULL;
 }
